@@ -190,6 +190,9 @@ class TracepointConfigService:
         :return: the new TracePointConfig
         """
         tp_id = str(uuid.uuid4())
+        # the registration is what was given at the time of the call: take copies, the caller keeps (and can go on
+        # changing) its own dict and lists
+        args, watches, metrics = dict(args), list(watches), list(metrics)
         config = build_trigger(tp_id, path, line, args, watches, metrics)
         if config is None:
             # e.g. an unknown stage - there is nothing we can install for this, and None must not get into the config
